@@ -923,7 +923,8 @@ gdimen(struct infilesformat infile_info, struct Input *in, FILE *strm)
     /*
      * validate dimension sizes
      */
-    if ((in->dims[0] < 2) || (in->dims[1] < 2)) {
+    /* the number of planes is a count: 0 or a negative value would size the data buffer with len <= 0 */
+    if ((in->dims[0] < 2) || (in->dims[1] < 2) || (in->dims[2] < 1)) {
         fprintf(stderr, err3, infile);
         goto err;
     }
